@@ -105,7 +105,9 @@ where
                     .periodic_images(position, 3, false)
                     .map(|p| self.shape.transform(&p))
                 {
-                    sum += shape1.energy(&shape2);
+                    // This loop visits every pair of a shape and a periodic image from both
+                    // sides, so each pair contributes half its energy to the energy per shape.
+                    sum += 0.5 * shape1.energy(&shape2);
                 }
             }
         }
